@@ -144,6 +144,12 @@ def gen_da(rng):
     op = rng.choice(['d.sub', 'd.sub', 'd.and', 'd.and', 'd.getl', 'd.gett', 'd.get', 'd.add', 'd.add', 'd.relabel', 'd.keys'])
     ks = rand_keysel(rng, d)
     if op in ('d.sub', 'd.and'):
+        # an ABSENT key that happens to spell a dotted path into a nested mapping value ('a.b' where d['a'] is a mapping holding 'b')
+        # is still just an absent key: nothing is deleted, in particular nothing inside the shared nested value
+        dotted = ['%s.%s' % (k, s) for k, v in d.items() if isinstance(v, dict) for s in v]
+        if dotted and rng.random() < 0.5:
+            ks = ks + [rng.choice(dotted)]
+            rng.shuffle(ks)
         arg = enc(ks) if rng.random() < 0.7 or not ks else enc(ks[0])
     elif op == 'd.getl':
         arg = enc(ks)
